@@ -1,0 +1,33 @@
+//go:build verif
+
+package engine
+
+import (
+	myraft "github.com/feichai0017/NoKV/raft"
+)
+
+// Verif* expose the raft WAL payload codecs to the verification harness.
+
+func VerifEncodeRaftEntries(groupID uint64, entries []myraft.Entry) ([]byte, error) {
+	return encodeRaftEntries(groupID, entries)
+}
+
+func VerifDecodeRaftEntries(data []byte) (uint64, []myraft.Entry, error) {
+	return decodeRaftEntries(data)
+}
+
+func VerifEncodeRaftHardState(groupID uint64, st myraft.HardState) ([]byte, error) {
+	return encodeRaftHardState(groupID, st)
+}
+
+func VerifDecodeRaftHardState(data []byte) (uint64, myraft.HardState, error) {
+	return decodeRaftHardState(data)
+}
+
+func VerifEncodeRaftSnapshot(groupID uint64, snap myraft.Snapshot) ([]byte, error) {
+	return encodeRaftSnapshot(groupID, snap)
+}
+
+func VerifDecodeRaftSnapshot(data []byte) (uint64, myraft.Snapshot, error) {
+	return decodeRaftSnapshot(data)
+}
